@@ -472,6 +472,68 @@ func c08Registration(r *Result) {
 		<-ret
 		r.Stats["registration-scenarios"]++
 	}
+	// ... and registered / replaced while a connection is OPEN (it has exchanged a request already and is idle): the next batch on
+	// that same connection goes through the handlers registered now
+	{
+		key := "Get registered before Serve; one request answered on the connection; then Handle registers Discover Versions and Destroy and replaces Get; then the batch [Get, Discover Versions, Destroy] on the SAME connection"
+		crumb("C08 scenario: " + key)
+		r.eval(key, true)
+		var mu sync.Mutex
+		var calls []string
+		s := &kmip.Server{}
+		s.Handle(kmip.OPERATION_GET, mk(&calls, &mu, fmt.Sprintf("h%d", uint32(kmip.OPERATION_GET))))
+		sc, cc := rec.Pipe()
+		l := rec.NewListener()
+		init := make(chan struct{})
+		ret := make(chan error, 1)
+		go func() { ret <- s.Serve(l, init) }()
+		<-init
+		l.Push(rec.AcceptStep{Conn: rec.NewConn(sc, 1)})
+		_ = cc.SetDeadline(time.Now().Add(3 * time.Second))
+		enc, dec := kmip.NewEncoder(cc), kmip.NewDecoder(cc)
+		first := kmip.Request{Header: kmip.RequestHeader{Version: kmip.ProtocolVersion{Major: 1, Minor: 4}, BatchCount: 1},
+			BatchItems: []kmip.RequestBatchItem{{Operation: kmip.OPERATION_GET, RequestPayload: kmip.GetRequest{UniqueIdentifier: "a"}}}}
+		var resp0 kmip.Response
+		err := enc.Encode(&first)
+		if err == nil {
+			err = dec.Decode(&resp0)
+		}
+		ops := []kmip.Enum{kmip.OPERATION_DISCOVER_VERSIONS, kmip.OPERATION_GET, kmip.OPERATION_DESTROY}
+		for _, op := range ops {
+			s.Handle(op, mk(&calls, &mu, fmt.Sprintf("g%d", uint32(op))))
+		}
+		req := kmip.Request{Header: kmip.RequestHeader{Version: kmip.ProtocolVersion{Major: 1, Minor: 4}, BatchCount: 3},
+			BatchItems: []kmip.RequestBatchItem{
+				{Operation: kmip.OPERATION_GET, UniqueID: []byte{1}, RequestPayload: kmip.GetRequest{UniqueIdentifier: "a"}},
+				{Operation: kmip.OPERATION_DISCOVER_VERSIONS, UniqueID: []byte{2}, RequestPayload: kmip.DiscoverVersionsRequest{}},
+				{Operation: kmip.OPERATION_DESTROY, UniqueID: []byte{3}, RequestPayload: kmip.DestroyRequest{UniqueIdentifier: "b"}}}}
+		var resp kmip.Response
+		if err == nil {
+			err = enc.Encode(&req)
+		}
+		if err == nil {
+			err = dec.Decode(&resp)
+		}
+		obs := "no response: " + fmt.Sprint(err)
+		if err == nil {
+			mu.Lock()
+			obs = "calls=" + strings.Join(calls, ",") + " results="
+			mu.Unlock()
+			for _, it := range resp.BatchItems {
+				obs += fmt.Sprintf("[%d:%s]", uint32(it.ResultStatus), it.ResultMessage)
+			}
+		}
+		exp := fmt.Sprintf("calls=h%[1]d,g%[1]d,g%[2]d,g%[3]d results=[1:g%[1]d][1:g%[2]d][1:g%[3]d]", uint32(kmip.OPERATION_GET), uint32(kmip.OPERATION_DISCOVER_VERSIONS), uint32(kmip.OPERATION_DESTROY))
+		if obs != exp {
+			r.find(Finding{Kind: "violation", What: "a batch item was not handled by the handler registered for its operation (handlers registered while the connection was open)", Input: key, Expect: exp, Actual: obs})
+		}
+		cc.Close()
+		ctx, cancel := context.WithTimeout(context.Background(), 5*time.Second)
+		_ = s.Shutdown(ctx)
+		cancel()
+		<-ret
+		r.Stats["registration-scenarios"]++
+	}
 	// ... and withdrawn again: Handle(op, nil) is the API's only way to take a handler back (and to switch the built-in Discover
 	// Versions handler off). An operation whose entry is nil has no handler registered: Operation Not Supported, like an
 	// operation never mentioned - not a call through a nil func reported as a handler panic.
